@@ -33,11 +33,39 @@ def run(ctx, rep):
         from ..exprnf import function_nf
         form = function_nf(prog, m, rename={m.params[1]: 'X', m.self_name: 'self'}, skip_calls=('check_fit',))
         want = ('ret', ('call', 'log', ('mcall', ('name', 'self'), 'probability_density', ('name', 'X'))))
-        if 'opaque' in repr(form):
-            rep.undecided('D1.log', m, m.node.name, 'the body contains a construct the normal form does not model')
+        if 'opaque' not in repr(form) and form == want:
+            rep.ok('D1.log', m, m.node.name, 'np.log(self.probability_density(X))')
+            continue
+        # another body (an override with its own formula): refute by intervals, for every family that inherits / defines it
+        from ..ivkind import IV, evaluate, log as ivlog
+        wit = None
+        decided_cells = 0
+        fams_ = [f_ for f_, q_ in FAMILIES.items() if prog.cls(q_).lookup('log_probability_density') is m]
+        cache = ctx.memo.setdefault('ivcases', {}).setdefault('dom', {})
+        dom = (IV(1e-4, 1 - 1e-4), IV(1e-4, 1 - 1e-4))
+        for f_ in fams_:
+            k_ = prog.cls(FAMILIES[f_])
+            for th in ivcases.EXACT_THETAS[f_]:
+                for u0 in (0.15, 0.5, 0.85):
+                    for v0 in (0.2, 0.6, 0.9):
+                        u_, v_ = IV(u0, u0 + 1e-4), IV(v0, v0 + 1e-4)
+                        lp = evaluate(ctx, k_, 'log_probability_density', th, u_, v_, alts=True, domain=dom, domcache=cache)
+                        pd2 = evaluate(ctx, k_, 'probability_density', th, u_, v_, alts=True, domain=dom, domcache=cache)
+                        lp = [x for x, d_, _ in lp if d_ and isinstance(x, IV) and not x.nan]
+                        pd2 = [x for x, d_, _ in pd2 if d_ and isinstance(x, IV) and not x.nan and x.lo > 0]
+                        if len(lp) != 1 or len(pd2) != 1:
+                            continue
+                        decided_cells += 1
+                        want_iv = ivlog(pd2[0])
+                        tol = 1e-6 * max(1.0, abs(want_iv.lo), abs(want_iv.hi))
+                        if lp[0].lo > want_iv.hi + tol or lp[0].hi < want_iv.lo - tol:
+                            wit = wit or (f_, th, u_, v_, lp[0], want_iv)
+        if wit:
+            f_, th, u_, v_, got_iv, want_iv = wit
+            rep.bad('D1.log', m, m.node.name, f'{m.short} is not the logarithm of probability_density: for {f_}, theta = {th.lo:g}, u in {u_}, v in {v_} it lies in {got_iv} '
+                    f'while log(probability_density) lies in {want_iv}')
         else:
-            rep.check('D1.log', m, m.node.name, form == want, 'np.log(self.probability_density(X))',
-                      'log_probability_density is not the logarithm of probability_density of the same points')
+            rep.undecided('D1.log', m, m.node.name, f'{m.short} is not literally np.log(self.probability_density(X)); {decided_cells} cells evaluated, none separates the two')
     rep.rule('D5.shortcut', 'an early-return shortcut of a family density / conditional CDF is the independence value (1, resp. u), unless its guard is an invalid theta')
     shortcut_consistency(ctx, rep, 'D5.shortcut', 'probability_density')
     shortcut_consistency(ctx, rep, 'D5.shortcut', 'partial_derivative')
